@@ -79,6 +79,10 @@ ReturnEv ==
          /\ Chk("P:C02", "iterbound", E.limit >= 0 => E.iterations <= E.limit)
          /\ Chk("P:C02", "iterlimit.only.at.limit", E.status = "IterationLimit" => E.iterations = E.limit)
          /\ Chk("P:C06", "finite", E.finite)
+         /\ Chk("M", "path.iff.collect", E.path.has = E.collectPath)
+         /\ Chk("M", "path.shape", E.path.shapeOK)
+         /\ Chk("M", "path.times.monotone", E.path.timesMonotone /\ E.path.startsAtZero)
+         /\ Chk("M", "path.ends.at.last.point", E.path.endsAtLast)
 
 TNext == /\ i <= Len(Tr)
          /\ TLCSet(2, i)
